@@ -190,7 +190,7 @@ def explore(ctx):
         for _j in range(rnd.randint(1, 3)):
             c = rnd.randint(1, n)
             t = rnd.randint(c, n)
-            tf[f'{c}-{t}'] = rnd.choice([1, 3, 255, 255])
+            tf[f'{c}-{t}'] = rnd.choice([1, 3, 255, 255, -11, -6])
         if rnd.random() < 0.2:
             tf['*'] = rnd.choice([1, 255])
         scen = {'transform_faults': tf}
@@ -205,7 +205,7 @@ def explore(ctx):
     # plain clang pass: counter 1,2,3..., stays after accept; 255 and 1 -> STOP
     from cvise.passes.abstract import PassResult
     rc_cases = []
-    for rc, plain in [(0, True), (1, True), (255, True), (3, True), (0, False), (1, False), (255, False), (3, False), (77, False)]:
+    for rc, plain in [(0, True), (1, True), (255, True), (3, True), (-11, True), (0, False), (1, False), (255, False), (3, False), (77, False), (-11, False), (-9, False)]:
         scen = setup(ctx, {'transform_faults': {'*': rc}} if rc else {})
         path = os.path.join(ctx.tmp, 'tc.cc')
         with open(path, 'w') as f:
